@@ -593,3 +593,74 @@ def s7_no_blocking(prog):
     n = len(r.instances)
     r.instances = ['fn #%d' % i for i in range(n)]
     return r
+
+
+@rule('S8', props=['C07', 'C08'], floor=1, configs=('all',))
+def s8_archetype_claims(prog):
+    """ArchetypeClaims::next (the list of (archetype, claims) a task contributes to the claim map): it returns
+    `None` only once the archetype iterator is exhausted — an archetype that does not match the task's filter is
+    skipped, not the end of the list — and every `Some` carries the identifier of an archetype for which the
+    filter held, with the task's view claims merged with its entry-view claims."""
+    r = Result()
+    fs = [f for f in prog.fns.values() if f.name == 'next' and f.impl and is_adt(f.impl['self'], 'query::result::archetype_claims::ArchetypeClaims')]
+    if len(fs) != 1:
+        r.viol('S8', 'missing', '-', 'ArchetypeClaims::next not found')
+        return r
+    f = fs[0]
+    E = pathsem.analyse(prog, f)
+    rets = [p for p in E.paths if p.ended == 'return']
+    r.inst('ArchetypeClaims::next: %d returning paths' % len(rets))
+    rep = set()
+
+    def once(k, ln, msg):
+        if k not in rep:
+            rep.add(k)
+            r.viol('S8', 'ArchetypeClaims::next/' + k, f.loc(ln), msg)
+    if E.truncated or not rets:
+        once('not-analysable', None, 'path enumeration cut off')
+        return r
+    S = pathsem.strip_refs
+    ai = adt_field_index(prog, 'query::result::archetype_claims::ArchetypeClaims', 'archetypes_iter')
+    n_some = n_none = 0
+
+    def from_archetypes(it):
+        root = pathsem.iter_chain(it)[0]
+        return pathsem.is_field_of(root, 'query::result::archetype_claims::ArchetypeClaims', ai) or pathsem.mentions(root, lambda t: pathsem.is_field_of(t, 'query::result::archetype_claims::ArchetypeClaims', ai))
+    for p in rets:
+        if p.ret == pathsem.NONE:
+            n_none += 1
+            ended = [1 for a_, v in p.conds if isinstance(a_, tuple) and from_archetypes(a_[1]) and
+                     ((a_[0] == 'exhausted' and v is True) or (a_[0] == 'nonempty' and v is False) or (a_[0] == 'next' and v == 0))]
+            if not ended:
+                once('gives-up-early', None, 'returns None although the archetype iterator is not exhausted (an archetype that does not match the filter ends the list): claims of later archetypes are never recorded or checked')
+            continue
+        v = p.ret
+        if not (isinstance(v, tuple) and v[0] == 'agg' and v[2] == 'Some' and isinstance(v[4][0], tuple) and v[4][0][0] == 'agg' and v[4][0][1] == 'tuple' and len(v[4][0][4]) == 2):
+            once('shape', None, 'cannot see the (identifier, claims) pair returned (%s)' % pathsem.tstr(v)[:120])
+            continue
+        n_some += 1
+        ident, claims = v[4][0][4]
+        arch = None
+        if isinstance(ident, tuple) and ident[0] == 'call' and ident[1].endswith('::identifier'):
+            arch = pathsem.canon(S(ident[2][0]))
+        flt = [e for e in p.calls(lambda e: e['name'] == 'filter' and 'registry::contains::filter' in e['path']) if p.lookup(e['ret']) is True]
+        ok = arch is not None and any(pathsem.mentions(pathsem.canon(e['args'][0]), lambda t: t[0] == 'call' and t[1].endswith('::identifier') and pathsem.canon(S(t[2][0])) == arch) for e in flt)
+        if not ok:
+            once('unfiltered', None, 'a (identifier, claims) pair is produced for an archetype that was not found to match the task filter')
+        if not (isinstance(arch, tuple) and pathsem.mentions(arch, lambda t: pathsem.is_field_of(t, 'query::result::archetype_claims::ArchetypeClaims', ai))):
+            once('other-archetype', None, 'the identifier returned is not that of an archetype taken from the archetype iterator')
+        me = [e for e in p.calls(lambda e: e['name'] == 'merge_unchecked') if e['ret'] == S(claims)]
+        srcs = set()
+        for e in me[:1]:
+            for v_ in e['vals']:
+                v_ = S(v_)
+                for c in p.calls(lambda c: c['name'] == 'claims' and c['ret'] == v_):
+                    names = set()
+                    for a_ in c['f'].get('args', []):
+                        names |= set(ty_params(a_))
+                    srcs.add('entry' if 'EntryViews' in names else ('views' if 'Views' in names else '?'))
+        if srcs != {'views', 'entry'}:
+            once('claims', None, 'the claims returned are not the merge of the task view claims and entry-view claims (found %s)' % sorted(srcs))
+    if not n_some or not n_none:
+        once('shape', None, 'expected both Some and None results (found %d / %d)' % (n_some, n_none))
+    return r
